@@ -202,6 +202,8 @@ type agg struct {
 	crashes   []crash
 	tasksDone int
 	perScen   map[string]int
+	knownHits map[int]int
+	knownSmp  map[int]*explore.Found
 }
 
 type crash struct {
@@ -211,7 +213,7 @@ type crash struct {
 }
 
 func newAgg() *agg {
-	return &agg{outcomes: map[string]int{}, sigs: map[uint64]struct{}{}, perScen: map[string]int{}}
+	return &agg{outcomes: map[string]int{}, sigs: map[uint64]struct{}{}, perScen: map[string]int{}, knownHits: map[int]int{}, knownSmp: map[int]*explore.Found{}}
 }
 
 func (a *agg) add(t *explore.Task, r *explore.Result) {
@@ -240,6 +242,12 @@ func (a *agg) add(t *explore.Task, r *explore.Result) {
 		a.maxDevs = r.MaxDevs
 	}
 	a.contended += r.Contended
+	for k, v := range r.KnownHits {
+		a.knownHits[k] += v
+		if a.knownSmp[k] == nil {
+			a.knownSmp[k] = r.KnownSample[k]
+		}
+	}
 	a.tasksDone++
 	a.perScen[t.Scen] += r.Execs
 }
@@ -355,7 +363,7 @@ func (p *pool) run() {
 					p.a.add(t, r)
 					for _, c := range r.Children {
 						d := t.Depth - 1
-						p.push(&explore.Task{Scen: t.Scen, Params: t.Params, Prefix: c.Prefix, Hash: c.Hash, Depth: d, Expand: p.expandIf(d)})
+						p.push(&explore.Task{Scen: t.Scen, Params: t.Params, Prefix: c.Prefix, Hash: c.Hash, Depth: d, Expand: p.expandIf(d), Known: t.Known})
 					}
 					if r.Recycle {
 						w.stop()
@@ -456,6 +464,21 @@ func loadFindings() []finding {
 		}
 	}
 	return out
+}
+
+// matchesStatic: the part of a known finding that can be decided before running (property, scenario, params).
+func (fd *finding) matchesStatic(prop, scen, params string) bool {
+	if fd.Status != "known" || fd.Property != prop {
+		return false
+	}
+	m := func(pat, s string) bool {
+		if pat == "" {
+			return true
+		}
+		ok, _ := regexp.MatchString(pat, s)
+		return ok
+	}
+	return m(fd.Scen, scen) && m(fd.Params, params)
 }
 
 func (fd *finding) matches(prop, scen, params, class, msg string) bool {
